@@ -107,36 +107,53 @@ pub fn check_pair(c: &Pair, rec: &mut Rec) -> Result<(), Violation> {
     if c.packed && !r2.equals(&r) {
       return Err(f(Violation::new("laws", "not_commutative", format!("a.{}(b) != b.{}(a); a = {:?}, b = {:?}", name, name, sa, sb))));
     }
+    if !c.packed {
+      // un-packed operands: no canonical form is claimed, but b.op(a) must still be the right set
+      let cells2 = bc::model_cells(name, &format!("b.{}(a)", name), &r2).map_err(|v| f(v))?;
+      if r2.get_depth_max() != dm || mb::to_intervals(dm, dm, &cells2) != want {
+        return Err(f(Violation::new(name, "wrong_set", format!("b.{}(a) = {:?} is not the expected set of leaves {:?}; a = {:?}, b = {:?}", name, cells2, &want[..want.len().min(8)], sa, sb))));
+      }
+    }
     results.push(r);
   }
   if c.packed {
-    // De Morgan with the crate's own equals (depth_max of the complements is the operand's, so compare leaf sets when they differ)
-    let (na, nb) = (a.not(), b.not());
-    let eq_sets = |x: &BMOC, y: &BMOC| -> Result<bool, Violation> {
-      let d = x.get_depth_max().max(y.get_depth_max());
-      let cx = bc::model_cells("laws", "lhs", x)?;
-      let cy = bc::model_cells("laws", "rhs", y)?;
-      Ok(mb::to_intervals(x.get_depth_max(), d, &cx) == mb::to_intervals(y.get_depth_max(), d, &cy))
-    };
-    let lhs = results[0].not();
-    let rhs = na.or(&nb);
-    if !(eq_sets(&lhs, &rhs)? && (sa.depth_max != sb.depth_max || lhs.equals(&rhs))) {
-      return Err(f(Violation::new("laws", "de_morgan_and", format!("not(a and b) != not(a) or not(b); a = {:?}, b = {:?}", sa, sb))));
-    }
-    let lhs = results[1].not();
-    let rhs = na.and(&nb);
-    if !(eq_sets(&lhs, &rhs)? && (sa.depth_max != sb.depth_max || lhs.equals(&rhs))) {
-      return Err(f(Violation::new("laws", "de_morgan_or", format!("not(a or b) != not(a) and not(b); a = {:?}, b = {:?}", sa, sb))));
-    }
-    // a xor a = empty ; a or not a = whole sky
-    let e = a.xor(&a);
-    if e.entries.len() != 0 {
-      return Err(f(Violation::new("laws", "xor_self", format!("a xor a is not empty for a = {:?}", sa))));
-    }
-    let w = a.or(&na);
-    let sky: Vec<u64> = (0..12).map(|h| mb::encode_raw(sa.depth_max, MCell { depth: 0, hash: h, full: true })).collect();
-    if raw_of(&w) != sky {
-      return Err(f(Violation::new("laws", "or_complement", format!("a or not(a) = {:?} is not the 12 full base cells, a = {:?}", raw_of(&w), sa))));
+    // laws, with the crate's own `equals` (structural): results of packed operands are canonical,
+    // and both sides of De Morgan have depth_max = max of the operands', so structural equality is demanded
+    let laws = catch(|| -> Result<(), Violation> {
+      let (na, nb) = (a.not(), b.not());
+      let eq_sets = |x: &BMOC, y: &BMOC| -> Result<bool, Violation> {
+        let d = x.get_depth_max().max(y.get_depth_max());
+        let cx = bc::model_cells("laws", "lhs", x)?;
+        let cy = bc::model_cells("laws", "rhs", y)?;
+        Ok(mb::to_intervals(x.get_depth_max(), d, &cx) == mb::to_intervals(y.get_depth_max(), d, &cy))
+      };
+      let lhs = results[0].not();
+      let rhs = na.or(&nb);
+      if !(eq_sets(&lhs, &rhs)? && lhs.equals(&rhs)) {
+        return Err(Violation::new("laws", "de_morgan_and", format!("not(a and b) != not(a) or not(b); a = {:?}, b = {:?}", sa, sb)));
+      }
+      let lhs = results[1].not();
+      let rhs = na.and(&nb);
+      if !(eq_sets(&lhs, &rhs)? && lhs.equals(&rhs)) {
+        return Err(Violation::new("laws", "de_morgan_or", format!("not(a or b) != not(a) and not(b); a = {:?}, b = {:?}", sa, sb)));
+      }
+      // x xor x = empty ; x or not x = whole sky, for both operands
+      for (x, nx, sx) in [(&a, &na, &sa), (&b, &nb, &sb)] {
+        let e = x.xor(x);
+        if e.entries.len() != 0 {
+          return Err(Violation::new("laws", "xor_self", format!("x xor x is not empty for x = {:?}", sx)));
+        }
+        let w = x.or(nx);
+        let sky: Vec<u64> = (0..12).map(|h| mb::encode_raw(sx.depth_max, MCell { depth: 0, hash: h, full: true })).collect();
+        if raw_of(&w) != sky {
+          return Err(Violation::new("laws", "or_complement", format!("x or not(x) = {:?} is not the 12 full base cells, x = {:?}", raw_of(&w), sx)));
+        }
+      }
+      Ok(())
+    });
+    match laws {
+      Ok(r) => r.map_err(|v| f(v))?,
+      Err(p) => return Err(f(Violation::new("laws", "panic", format!("an operator panicked while evaluating the laws: {}; a = {:?}, b = {:?}", p, sa, sb)))),
     }
   }
   Ok(())
